@@ -125,6 +125,16 @@ func judgeBodies(w *proxyWorld, res *Result) {
 		if !fromStore {
 			rule = "C08.a"
 		}
+		if fromStore && ex.Status == 200 && o.Status == 200 && !o.Aborted {
+			// C08 covers responses from the store too: the head the origin sent with that body, and no
+			// framing header it never sent
+			if cr := ex.Hdr.Get("Content-Range"); cr != "" && o.RespHdr.Get("Content-Range") == "" {
+				res.violate("C08.a", w.p.Transport+" store-built-200-carries-content-range", "200 from the store carries Content-Range %q, which origin response #%d did not: %s", cr, o.N, where)
+			}
+			if cl := ex.Hdr.Get("Content-Length"); cl != "" && cl != strconv.Itoa(len(o.RespBody)) {
+				res.violate("C08.a", w.p.Transport+" store-built-200-content-length", "200 from the store declares Content-Length %s, origin response #%d has %d body bytes: %s", cl, o.N, len(o.RespBody), where)
+			}
+		}
 		want := w.wantedRes(ex)
 		if want >= 0 && o.Res != want {
 			res.violate(rule, w.p.Transport+" other-resource", "response to %s is origin response #%d of resource %d: %s", reqDesc(ex), o.N, o.Res, where)
